@@ -9,4 +9,4 @@ if ! git diff --quiet; then echo "seedall: /repo has uncommitted changes" >&2; e
 git apply "$patch" || { echo "seedall: patch does not apply" >&2; exit 2; }
 trap 'git -C /repo checkout -- . ' EXIT
 cd /verif; . ./env.sh
-bin/raftlint -verif /verif -no-evidence -property all 2>&1 | awk '/violated/ {v=$0} /^VIOLATION/ {print; print "   " substr(v,1,220)} /internal error|cannot|type error/ {print}' 
+${RAFTLINT:-bin/raftlint} -verif /verif -no-evidence -property all 2>&1 | awk '/violated/ {v=$0} /^VIOLATION/ {print; print "   " substr(v,1,220)} /internal error|cannot|type error/ {print}' 
